@@ -3,7 +3,7 @@
 // Contracts for package generator, checked by /verif/govc (comment-only; compiled only with -tags verif).
 package generator
 
-//@ prelude c13 c07 c01
+//@ prelude c13 c07 c01 c02
 
 // ---- text is data (C13) -------------------------------------------------------------------------------------
 
@@ -77,6 +77,7 @@ package generator
 //@   ensures-assumed [C01:A-FRAGMENT] atomFails(result[0]) == !holds(box(profile.ScalarSetRule, in))
 
 //@ func GenerateUniqueValues(uniqueValues profile.UniqueValuesRule, iriExpander *misc.IriExpander) []SimpleRegoResult
+//@   verify [C07]
 //@   ensures [C01:single-result] len(result) == 1 && result == snoc(empty(Seq_S_generator_SimpleRegoResult), result[0])
 //@   ensures-assumed [C01:A-FRAGMENT] atomFails(result[0]) == !holds(box(profile.UniqueValuesRule, uniqueValues))
 
@@ -173,3 +174,46 @@ package generator
 
 //@ func wrapTopLevelRegoResult(e profile.TopLevelExpression, results []GeneratedRegoResult, iriExpander *misc.IriExpander) string
 //@   requires [C01:branches-mean-failure] anyFailsG(results) == !(holds(e.Value) != e.Negated)
+
+// ---- path traversal (C02) -----------------------------------------------------------------------------------------
+// nalts / sumAlts / andAlts count the alternatives of a path (spec/c02.smt2): one generated clause per alternative.
+
+//@ func traverseRegularProperty(property path.Property, t traversal, fetchNodes bool, iriExpander *misc.IriExpander) []regoPathResultInternal
+//@   ensures [C02:one-clause] len(result) == 1
+//@   ensures [C02:binding] result[0].variable == t.variable + "_" + itoa(len(t.pathVariables)) || deref(t.counter) > 0
+//@   ensures [C02:path-recorded] result[0].paths == snoc(t.paths, property.Iri)
+
+//@ func traverseCustomProperty(property path.Property, t traversal, fetchNodes bool, iriExpander *misc.IriExpander) []regoPathResultInternal
+//@   ensures [C02:one-clause] len(result) == 1
+//@   ensures [C02:path-recorded] result[0].paths == snoc(t.paths, property.Iri)
+
+//@ func traverseProperty(property path.Property, t traversal, fetchNodes bool, iriExpander *misc.IriExpander) []regoPathResultInternal
+//@   ensures [C02:one-clause] len(result) == 1
+//@   ensures [C02:path-recorded] result[0].paths == snoc(t.paths, property.Iri)
+
+//@ func traverse(propPath path.PropertyPath, traversed traversal, fetchNodes bool, iriExpander *misc.IriExpander) []regoPathResultInternal
+//@   ensures [C02:one-clause-per-alternative] len(result) == nalts(propPath)
+
+//@ func traverseOr(or path.OrPath, t traversal, fetchNodes bool, iriExpander *misc.IriExpander) []regoPathResultInternal
+//@   ensures [C02:union] len(result) == sumAlts(or.Or)
+//@   loop 1 /* for _, p := range or.Or */
+//@     invariant [C02] len(acc) == sumAlts(take(or.Or, #i))
+//@   loop 2 /* for _, tr := range traversed */
+//@     invariant [C02] len(acc) == sumAlts(take(or.Or, #i@1)) + #i
+
+//@ func traverseAnd(and path.AndPath, t traversal, fetchNodes bool, iriExpander *misc.IriExpander) []regoPathResultInternal
+//@   requires [C17:non-empty] len(and.And) >= 1
+//@   ensures [C02:composition] len(result) == andAlts(and.And)
+//@   loop 1 /* for _, tr := range firstTraversed */
+//@     invariant [C02] len(acc) == times(#i, andAlts(remaining))
+//@   loop 2 /* for _, ntr := range traverse(next, internalResultToTraversal(t, tr), fetchNodes, iriExpander) */
+//@     invariant [C02] len(acc) == times(#i@1, andAlts(remaining)) + #i
+
+//@ func traversePath(path path.PropertyPath, variable string, fetchNodes bool, iriExpander *misc.IriExpander) []regoPathResultInternal
+//@   ensures [C02:one-clause-per-alternative] len(result) == nalts(path)
+//@   ensures [C02:each-clause-yields-its-own-binding] forall k int :: 0 <= k && k < len(result) ==> (len(result[k].rego) >= 1 && result[k].rego[len(result[k].rego) - 1] == "nodes = " + result[k].variable)
+//@   loop 1 /* for _, tr := range traverse(path, t, fetchNodes, iriExpander) */
+//@     invariant [C02] len(acc) == #i && (forall k int :: 0 <= k && k < #i ==> (len(acc[k].rego) >= 1 && acc[k].rego[len(acc[k].rego) - 1] == "nodes = " + acc[k].variable))
+
+//@ func GeneratePropertyArray(path path.PropertyPath, variable string, iriExpander *misc.IriExpander) RegoPathResult
+//@   requires [C07:array-holds-one-clause] nalts(path) <= 1
